@@ -480,6 +480,10 @@ def attempt_cases(ctx, cases, impl, model):
 
 
 def sig(c, region, dk, im, m):
+    if region == "F_retryBody":
+        # the finding is about the body of a re-sent request and nothing else: any other difference in that region is a new one
+        other = sorted(set(k.split(".")[-1] for k in dk) - {"body", "clen"})
+        return region if not other else "%s+%s" % (region, ",".join(other))
     if region.startswith("F_"):
         return region
     return "%s:%s" % (region, ",".join(sorted(set(k.split(".")[-1] for k in dk))))
